@@ -149,8 +149,9 @@ fn target_info(r: &mut Rng, with_ts: bool) -> Vec<u8> {
 }
 
 /// C15: every flag combination the client reacts to x credential sets x target-info shapes
-pub fn generate_c15(thorough: bool, seed: u64, _part: (usize, usize), em: &mut Emitter) {
+pub fn generate_c15(thorough: bool, seed: u64, part: (usize, usize), em: &mut Emitter) {
     EXPECT_TOKEN.store(true, std::sync::atomic::Ordering::Relaxed);
+    if part.0 == 0 { generate_c15_big(em); }
     let mut r = Rng::new(seed ^ 0xC15);
     let n = if thorough { 40000 } else { 2500 };
     for i in 0..n {
@@ -177,6 +178,21 @@ pub fn generate_c15(thorough: bool, seed: u64, _part: (usize, usize), em: &mut E
         }
         run_auth(em, &c, &challenge_max(flags, &sc, &ti, version, 0, 0, md));
         *PRE_CHAL.lock().unwrap() = None; PRE_NO_RENEG.store(false, std::sync::atomic::Ordering::Relaxed);
+    }
+}
+
+/// C15: tokens beyond 64 KiB — a target information near the 16-bit limit together with long names: every field stays
+/// within its own 16-bit length, the 32-bit offsets must keep addressing them
+pub fn generate_c15_big(em: &mut Emitter) {
+    EXPECT_TOKEN.store(true, std::sync::atomic::Ordering::Relaxed);
+    let sc = [7u8, 6, 5, 4, 3, 2, 1, 0];
+    for (n, namelen) in &[(64000usize, 400usize), (65000, 200), (60000, 1000), (64000, 0)] {
+        let mut ti = av(1, &vec![0x41u8; n - 20]); ti.extend(av(7, &[1, 2, 3, 4, 5, 6, 7, 8])); ti.extend(av(0, &[]));
+        let name: String = std::iter::repeat('x').take(*namelen).collect();
+        let c = Creds { domain: name.clone(), user: format!("u{}", name), password: "p".into(), from_hash: false };
+        for flags in &[0x62898235u32, 0x62898235 & !0x02000000, 0x62898234] {
+            run_auth(em, &c, &challenge(*flags, &sc, &ti, flags & 0x02000000 != 0, 0, 0));
+        }
     }
 }
 
